@@ -19,10 +19,14 @@ def req_pipe_detached(h):
     lbref = Ref(Cell(lb, "lb"), ())
     for u in ("uA", "uB"):
         h.method("socket::patterns::load_balancer::LoadBalancer", "add_connection", lbref, string(u), BoxV(Cell(Opaque("iface"), "iface"), ()))
-    state = Enum("socket::req_socket::ReqState", 1, "ExpectingReply", [string("uA")]) if st else Enum("socket::req_socket::ReqState", 0, "ReadyToSend", [])
+    variants = h.it.prog.enum_variants("socket::req_socket::ReqState")      # from the current source
+    ex = variants.index("ExpectingReply")
+    state = Enum("socket::req_socket::ReqState", ex, "ExpectingReply", [string("uA")]) if st else Enum("socket::req_socket::ReqState", variants.index("ReadyToSend"), "ReadyToSend", [])
     uris = MapV("HashMap", [(1, string("uA")), (2, string("uB"))])
-    sock = Agg(REQ, [BoxV(Cell(Opaque("core"), "core"), ()), lbref.load(), Opaque("ingress"), _lock(MapV("HashMap", [])), _lock(state),
-                     BoxV(Cell(Agg("{notify}", []), "notify"), ()), _lock(uris)])
+    vals = {"core": BoxV(Cell(Opaque("core"), "core"), ()), "load_balancer": lbref.load(), "ingress_engine": Opaque("ingress"),
+            "pending_pipe_senders": _lock(MapV("HashMap", [])), "state": _lock(state),
+            "reply_available_notifier": BoxV(Cell(Agg("{notify}", []), "notify"), ()), "pipe_read_to_endpoint_uri": _lock(uris)}
+    sock = Agg(REQ, [vals.get(f, Opaque(f)) for f in h.it.prog.struct_fields(REQ)])
     sref = Ref(Cell(sock, "req"), ())
     # everything that is not REQ state handling is a no-op here
     h.it.hooks["socket::patterns::addressed_ingress::AddressedIngressEngine::deregister_pipe"] = lambda it, a, d, f: UNIT
